@@ -2,6 +2,8 @@ import Lean.Data.Json
 import ReqVerif.Model.Merge
 import ReqVerif.Model.Select
 import ReqVerif.Model.Tags
+import ReqVerif.Model.Solver
+import ReqVerif.Model.GraphCheck
 /-!
 rvdriver: line protocol between the Python harness and the executable models.
 One JSON object per input line (`{"op": ..., ...}`), one JSON value per output line.
@@ -104,6 +106,86 @@ def opTags (j : Json) : Json :=
               ("score", Json.arr #[Json.num (JsonNumber.fromNat sc.1), jsonInt sc.2.1,
                                    Json.num (JsonNumber.fromNat sc.2.2.1), Json.num (JsonNumber.fromNat sc.2.2.2)])]
 
+/-! ### Graph and solver (C10, C01, C02, C08, C09) -/
+
+def parseMeta (j : Json) : G.Meta :=
+  { name := jChars j "name", version := jOptNat j "version", vtext := jStr j "vtext", isMeta := jBool j "isMeta",
+    reqs := (jArr j "reqs").map parseReq }
+
+def parseAcc (j : Json) : List (Nat × Nat) :=
+  (jArr j "acc").filterMap fun p => match p.getArr?.toOption with
+    | some a => match a.toList with
+      | [x, y] => match x.getNat?.toOption, y.getNat?.toOption with
+        | some c, some v => some (c, v) | _, _ => none
+      | _ => none
+    | none => none
+
+def parseOrder (j : Json) : G.Orders :=
+  (jArr j "orders").map fun p => (jStrs p "extras", (jArr p "order").map fun x => x.getStr?.toOption)
+
+def showLabel (r : Option Req) : Json :=
+  match r with
+  | none => Json.null
+  | some q => Json.arr #[Json.str (str (normName q.name)), jsonStrs (G.unionSorted [] q.extras), jsonNats (G.sortNats q.clauses)]
+
+def dumpState (s : G.St) : Json :=
+  let keys := G.sortIdsByKey s (s.nodes.map (·.2))
+  Json.arr (keys.map fun i =>
+    let n := s.get i
+    let md : Json := match n.md with
+      | none => Json.null
+      | some m => Json.arr #[Json.str (str m.name), match m.version with | some v => Json.num (JsonNumber.fromNat v) | none => Json.null]
+    let deps := n.deps.map fun d => Json.arr #[Json.str (str (s.get d.1).key), Json.bool (s.live d.1), showLabel d.2]
+    let rds := n.rdeps.map fun r => Json.arr #[Json.str (str (s.get r).key), Json.bool (s.live r)]
+    Json.mkObj [("key", Json.str (str n.key)), ("md", md), ("deps", Json.arr deps.toArray), ("rdeps", Json.arr rds.toArray),
+                ("complete", Json.bool n.complete)]).toArray
+
+def opHistory (j : Json) : Json :=
+  let order := parseOrder j
+  let s0 : G.St := { heap := #[], nodes := [], acc := parseAcc j }
+  let step (st : G.St × List Json × Bool) (o : Json) : G.St × List Json × Bool :=
+    let (s, outs, dead) := st
+    if dead then st else
+    let kind := jStr o "kind"
+    let r : G.M G.St :=
+      if kind == "add" then
+        let mta := match o.getObjVal? "meta" with | .ok Json.null => none | .ok m => some (parseMeta m) | .error _ => none
+        let srcId := (jOptStr o "source").bind fun k => s.lookup k.toList
+        let reason := match o.getObjVal? "reason" with | .ok Json.null => none | .ok r => some (parseReq r) | .error _ => none
+        (G.addDist 200 s (jChars o "key", mta) srcId reason order).map (·.1)
+      else if kind == "remove" then
+        match s.lookup (jChars o "key") with
+        | some i => G.removeDists 200 s i (jBool o "upstream")
+        | none => pure s
+      else pure s
+    match r with
+    | .ok s' => (s', outs ++ [Json.mkObj [("ok", dumpState s'), ("verdict", jsonStrs (G.coherence s' ((jArr o "roots").filterMap fun x => x.getStr?.toOption.map String.toList)))]], false)
+    | .error e => (s, outs ++ [Json.mkObj [("err", Json.str (G.errKind e))]], true)
+  let r := (jArr j "ops").foldl step (s0, [], false)
+  Json.arr r.2.1.toArray
+
+def parseEnvG (j : Json) : G.Env :=
+  { univ := (jArr j "universe").map fun p =>
+      (jChars p "key", (jArr p "versions").map fun v => (jNat v "rank", parseMeta (jObj v "meta"))),
+    possible := (jArr j "possible").map fun p => (jNats p "cs", jBool p "ok"),
+    neClause := (jArr j "ne").map fun p => ((jChars p "key", jNat p "rank"), jNat p "clause"),
+    order := parseOrder j }
+
+def opCompile (j : Json) : Json :=
+  let env := parseEnvG j
+  let prob : G.Problem :=
+    { inputs := (jArr j "inputs").map parseMeta,
+      constraints := (jArr j "constraints").map fun c => (parseMeta (jObj c "meta"), (jArr c "pinned").map fun b => b.getBool?.toOption.getD false),
+      removeConstraints := jBool j "removeConstraints",
+      maxDown := (jOptNat j "maxDown").getD 3 }
+  let s0 : G.St := { heap := #[], nodes := [], acc := parseAcc j }
+  let r := G.performCompile env prob s0
+  let roots := Json.arr ((r.2.1.map fun i => Json.str (str (r.1.get i).key))).toArray
+  match r.2.2 with
+  | .ok => Json.mkObj [("ok", dumpState r.1), ("roots", roots)]
+  | .noCand k cs => Json.mkObj [("nocand", Json.arr #[Json.str (str k), jsonNats cs]), ("graph", dumpState r.1), ("roots", roots)]
+  | .internal k => Json.mkObj [("internal", Json.str k)]
+
 def dispatch (op : String) (j : Json) : Json :=
   match op with
   | "merge" => opMerge j
@@ -112,6 +194,8 @@ def dispatch (op : String) (j : Json) : Json :=
   | "norm" => opNorm j
   | "select" => opSelect j
   | "tags" => opTags j
+  | "history" => opHistory j
+  | "compile" => opCompile j
   | "sort-cands" => opSortCands j
   | "hello" => Json.mkObj [("protocol", (1 : Nat))]
   | _ => Json.mkObj [("bad-op", op)]
